@@ -195,7 +195,7 @@ func spellStrParam(r *hx.Rand, name string, present bool) ([]string, *string) {
 	}
 	v := hx.Pick(r, queryTexts)
 	if name == "operationName" {
-		v = hx.Pick(r, []string{"Q", "", "Op Name", "Ü", "a&b"})
+		v = hx.Pick(r, []string{"Q", "Q", "", "Op Name", "Ü", "a&b", "Q ", " Q", "q"})
 	}
 	pairs := []string{name + "=" + url.QueryEscape(v)}
 	if r.Chance(1, 6) {
@@ -249,7 +249,7 @@ func spellBody(r *hx.Rand, class string, e *HTTPEnv) string {
 		ms = append(ms, member{key("query"), spellString(r, e.BQuery)})
 	}
 	if r.Chance(1, 2) {
-		e.BOp = hx.Pick(r, []string{"Q", "", "Op Name", "Ü"})
+		e.BOp = hx.Pick(r, []string{"Q", "Q", "", "Op Name", "Ü", "Q ", " Q", "q"})
 		ms = append(ms, member{key("operationName"), spellString(r, e.BOp)})
 	}
 	for _, which := range []string{"variables", "extensions"} {
@@ -463,7 +463,7 @@ func buildWSEnv(r *hx.Rand, kind string, didInit bool, class string) WSEnv {
 			ms = append(ms, member{"query", spellString(r, e.Query)})
 		}
 		if r.Chance(1, 2) {
-			e.OpName = hx.Pick(r, []string{"Q", "", "Op Name", "Ü"})
+			e.OpName = hx.Pick(r, []string{"Q", "Q", "", "Op Name", "Ü", "Q ", " Q", "q"})
 			ms = append(ms, member{"operationName", spellString(r, e.OpName)})
 		}
 		switch r.Intn(4) {
